@@ -532,6 +532,38 @@ fn check_number_table(ctx: &mut Ctx, rng: &mut Rng) {
                 ctx.violation(&format!("C18|number-unary|{}|{}", KIND[ka], what), json!({"n": nj(&a), "op": what, "power": p, "observed": nj(got), "expected_from_contained_type": nj(want)}));
             }
         }
+        // sign-sensitive operations over the whole real line, both zeros included: the container must do exactly
+        // what the contained type does (value, zero sign, every derivative)
+        for vz in [0.0, -0.0, -va, va, -1e-300, 1e-300, -vb.abs(), vb.abs()] {
+            let z = gen_num(rng, ka, vz);
+            let (su, flags): (Vec<(&str, Number, Number)>, [(bool, bool); 2]) = match &z {
+                Number::F64(x) => (
+                    vec![("abs", Signed::abs(&z), Number::F64(Signed::abs(x))), ("neg", -&z, Number::F64(-x)), ("signum", Signed::signum(&z), Number::F64(Signed::signum(x)))],
+                    [(Signed::is_positive(&z), Signed::is_positive(x)), (Signed::is_negative(&z), Signed::is_negative(x))],
+                ),
+                Number::Dual(x) => (
+                    vec![("abs", Signed::abs(&z), Number::Dual(Signed::abs(x))), ("neg", -&z, Number::Dual(-x)), ("signum", Signed::signum(&z), Number::Dual(Signed::signum(x)))],
+                    [(Signed::is_positive(&z), Signed::is_positive(x)), (Signed::is_negative(&z), Signed::is_negative(x))],
+                ),
+                Number::Dual2(x) => (
+                    vec![("abs", Signed::abs(&z), Number::Dual2(Signed::abs(x))), ("neg", -&z, Number::Dual2(-x)), ("signum", Signed::signum(&z), Number::Dual2(Signed::signum(x)))],
+                    [(Signed::is_positive(&z), Signed::is_positive(x)), (Signed::is_negative(&z), Signed::is_negative(x))],
+                ),
+            };
+            let region = if vz == 0.0 { if vz.is_sign_negative() { "negative-zero" } else { "positive-zero" } } else if vz < 0.0 { "negative" } else { "positive" };
+            for (what, got, want) in su.iter() {
+                ctx.eval(1);
+                ctx.asserted(1);
+                ctx.class(&format!("sign-op:{}:{}:{}", KIND[ka], what, region));
+                if !num_same(got, want) {
+                    ctx.violation(&format!("C18|number-unary|{}|{}|{}", KIND[ka], what, region), json!({"n": nj(&z), "op": what, "observed": nj(got), "expected_from_contained_type": nj(want)}));
+                }
+            }
+            ctx.asserted(2);
+            if flags[0].0 != flags[0].1 || flags[1].0 != flags[1].1 {
+                ctx.violation(&format!("C18|number-sign-predicate|{}|{}", KIND[ka], region), json!({"n": nj(&z), "container (is_positive, is_negative)": [flags[0].0, flags[1].0], "contained": [flags[0].1, flags[1].1]}));
+            }
+        }
         // sum over same-kind items (with floats interleaved) equals the explicit fold
         let items: Vec<Number> = (0..rng.usize(5)).map(|_| if rng.chance(0.3) { Number::F64(rng.real()) } else { let v = rng.real(); gen_num(rng, ka, v) }).collect();
         let s: Number = items.iter().cloned().sum();
@@ -566,7 +598,7 @@ impl Prop for C18 {
         "C18"
     }
     fn phases(&self, tier: Tier) -> Vec<PhaseSpec> {
-        vec![ph("conversion-table", tier.pick(6_000, 200_000)), ph("number-operator-table", tier.pick(6_000, 200_000))]
+        vec![ph("conversion-table", tier.pick(6_000, 2_000_000)), ph("number-operator-table", tier.pick(6_000, 2_000_000))]
     }
     fn exhaustive(&self, _tier: Tier) -> bool {
         false
@@ -588,13 +620,18 @@ impl Prop for C18 {
                 }
             }
         }
+        for k in KIND {
+            for r in ["positive-zero", "negative-zero", "negative", "positive"] {
+                v.push(format!("sign-op:{}:abs:{}", k, r));
+            }
+        }
         v
     }
     fn min_evaluations(&self, tier: Tier) -> u64 {
         tier.pick(400_000, 20_000_000)
     }
     fn rule(&self) -> String {
-        "The full table, each cell on seeded random values: 3 kinds x 3 target orders x {set_order, set_order_clone} with requested-name lists containing duplicates; all From impls (owned and borrowed) and the raising constructors new / new_from (requested names, unit sensitivity, zero Hessian, shared list); 11 binary operators (+ - * / % == < <= > >= abs_sub) x all 9 kind pairings x ownership (mixed Dual/Dual2 pairings must refuse), Number.f64 / f64.Number forms, unary neg/pow/exp/log/norm_cdf/inv_norm_cdf/abs, Sum, Zero/One. Results are compared bit-for-bit (kind, value, variable list, derivative arrays) with the same operation executed directly on the contained types. distinct_nontrivial = distinct (phase, case) draws.".into()
+        "The full table, each cell on seeded random values: 3 kinds x 3 target orders x {set_order, set_order_clone} with requested-name lists containing duplicates; all From impls (owned and borrowed) and the raising constructors new / new_from (requested names, unit sensitivity, zero Hessian, shared list); 11 binary operators (+ - * / % == < <= > >= abs_sub) x all 9 kind pairings x ownership (mixed Dual/Dual2 pairings must refuse), Number.f64 / f64.Number forms, unary neg/pow/exp/log/norm_cdf/inv_norm_cdf/abs, the sign-sensitive operations abs / neg / signum / is_positive / is_negative at negative, positive and both zero values, Sum, Zero/One. Results are compared bit-for-bit (kind, value, variable list, derivative arrays) with the same operation executed directly on the contained types. distinct_nontrivial = distinct (phase, case) draws.".into()
     }
     fn assumptions(&self) -> Vec<String> {
         vec!["the contained-type operations themselves are judged by C01/C02/C19".into(), "a panic or an Err both count as refusal for Dual x Dual2 pairings".into()]
